@@ -370,6 +370,215 @@ def size_oracle(c):
     return (w, h)
 
 
+
+# ---------------------------------------------------------------------------------------------------------------
+# extension round 4: nested <svg> / <symbol> viewport - clip rectangle and content transform against the
+# SOURCE-DERIVED Gen/LeafViewport.v (use_node.rs: use_node_size, viewbox_transform, get_clip_rect)
+# ---------------------------------------------------------------------------------------------------------------
+VP_UNITS = ['', 'px', '%', '%', 'in', 'pt', 'mm', 'em', 'pc', 'cm', 'ex']
+VP_COQ_UNIT = {'': 'UNone', 'px': 'UPx', 'in': 'UIn', 'cm': 'UCm', 'mm': 'UMm', 'pt': 'UPt', 'pc': 'UPc', '%': 'UPercent',
+               'em': 'UEm', 'ex': 'UEx'}
+VP_PX = {'': 1, 'px': 1, 'in': 96, 'pt': Fraction(96, 72), 'mm': Fraction(960, 254), 'cm': Fraction(9600, 254), 'pc': 16,
+         'em': 12, 'ex': 6}
+
+
+def vp_len(rng, lo_px, hi_px, axis):
+    """a length whose resolved value lies in [lo_px, hi_px] user units on a 600x400 viewport: (number, unit)"""
+    u = rng.choice(VP_UNITS)
+    px = dy(rng, lo_px, hi_px)
+    if u == '%':
+        per = Fraction(600 if axis == 'x' else 400, 100)
+    else:
+        per = Fraction(VP_PX[u])
+    n = Fraction(int(px / per * 8), 8)
+    if n == 0 and lo_px > 0:
+        n = Fraction(1, 8)
+    return (n, u)
+
+
+def vp_attr(name, l):
+    return '' if l is None else ' %s="%s%s"' % (name, fs(l[0]), l[1])
+
+
+def vp_coq_len(l):
+    return 'None' if l is None else "(Some (mk_len %s %s))" % (qstr(l[0]), VP_COQ_UNIT[l[1]])
+
+
+def gen_vp_case(rng, kind, i):
+    opt = lambda l, p: l if rng.below(100) < p else None
+    c = dict(kind=kind,
+             x=opt(vp_len(rng, -60, 60, 'x'), 70), y=opt(vp_len(rng, -60, 60, 'y'), 70),
+             w=opt(vp_len(rng, 8, 420, 'x'), 75), h=opt(vp_len(rng, 8, 300, 'y'), 75),
+             overflow=rng.choice([None, None, 'hidden', 'scroll', 'visible', 'auto']),
+             align=rng.choice(ALIGNS), slice=rng.below(2) == 1, has_par=rng.below(4) != 0,
+             vb=None if rng.below(7) == 0 else [dy(rng, -40, 40), dy(rng, -40, 40), dy(rng, 4, 200), dy(rng, 4, 200)],
+             ux=opt(vp_len(rng, -60, 60, 'x'), 60), uy=opt(vp_len(rng, -60, 60, 'y'), 60),
+             uw=opt(vp_len(rng, 8, 420, 'x'), 50), uh=opt(vp_len(rng, 8, 300, 'y'), 50))
+    # directed: the first cases of each kind walk through the width/height presence x overflow grid
+    grid = [(pw, ph, ov) for ov in (None, 'hidden', 'visible', 'auto') for pw in (True, False) for ph in (True, False)]
+    if i < len(grid):
+        pw, ph, ov = grid[i]
+        c['w'] = vp_len(rng, 8, 420, 'x') if pw else None
+        c['h'] = vp_len(rng, 8, 300, 'y') if ph else None
+        c['overflow'] = ov
+    return c
+
+
+def vp_doc(c):
+    par_s = ' preserveAspectRatio="%s"' % par(dict(align=c['align'], slice=c['slice'])) if c['has_par'] else ''
+    vb_s = ' viewBox="%s"' % ' '.join(fs(v) for v in c['vb']) if c['vb'] else ''
+    ov_s = ' overflow="%s"' % c['overflow'] if c['overflow'] else ''
+    rect = vp_attr('x', c['x']) + vp_attr('y', c['y']) + vp_attr('width', c['w']) + vp_attr('height', c['h'])
+    head = '<svg %s width="600" height="400" viewBox="0 0 600 400">' % NS
+    if c['kind'] == 'nested':
+        return head + '<svg%s%s%s%s>%s</svg></svg>' % (rect, vb_s, par_s, ov_s, PROBE)
+    if c['kind'] == 'symbol':
+        return head + '<symbol id="s"%s%s%s>%s</symbol><use xlink:href="#s"%s/></svg>' % (vb_s, par_s, ov_s, PROBE, rect)
+    urect = vp_attr('x', c['ux']) + vp_attr('y', c['uy']) + vp_attr('width', c['uw']) + vp_attr('height', c['uh'])
+    return head + '<defs><svg id="t"%s%s%s%s>%s</svg></defs><use xlink:href="#t"%s/></svg>' % (rect, vb_s, par_s, ov_s, PROBE, urect)
+
+
+def vp_coq_case(c, obs_clip, obs_ts):
+    asp = ("(Some {| ar_align := %s; ar_slice := %s |})" % (COQ_ALIGN[c['align']], 'true' if c['slice'] else 'false')
+           if c['has_par'] else 'None')
+    vb = ("(Some {| rx := %s; ry := %s; rw := %s; rh := %s |})" % tuple(qstr(v) for v in c['vb'])) if c['vb'] else 'None'
+    ov = '(Some "%s"%%string)' % c['overflow'] if c['overflow'] else 'None'
+
+    def node(is_svg, x, y, w, h, ov, vb, asp):
+        return ("{| vn_is_svg := %s; vn_x := %s; vn_y := %s; vn_width := %s; vn_height := %s; vn_overflow := %s; vn_viewbox := %s; "
+                "vn_aspect := %s |}" % (is_svg, vp_coq_len(x), vp_coq_len(y), vp_coq_len(w), vp_coq_len(h), ov, vb, asp))
+    if c['kind'] == 'nested':
+        n = l = node('true', c['x'], c['y'], c['w'], c['h'], ov, vb, asp)
+        use = 'None'
+    elif c['kind'] == 'symbol':
+        n = node('false', c['x'], c['y'], c['w'], c['h'], 'None', 'None', 'None')
+        l = node('false', None, None, None, None, ov, vb, asp)
+        use = 'None'
+    else:
+        n = l = node('true', c['x'], c['y'], c['w'], c['h'], ov, vb, asp)
+        use = "(Some %s)" % node('false', c['ux'], c['uy'], c['uw'], c['uh'], 'None', 'None', 'None')
+    oc = 'None' if obs_clip is None else "(Some {| rx := %s; ry := %s; rw := %s; rh := %s |})" % tuple(qstr(v) for v in obs_clip)
+    return "(%s, %s, %s, %s, %s)" % (n, l, use, oc, coq_ts(obs_ts))
+
+
+VP_COQ_PRELUDE = """From Coq Require Import String.
+Local Open Scope Q_scope.
+Definition st0 : vstate := {| st_view_box := {| rx := 0; ry := 0; rw := 600; rh := 400 |}; st_use_size := (None, None); st_dpi := 96; st_fs := 12 |}.
+Definition pct100 : SvgSize.length := mk_len 100 UPercent.
+(* `use` -> svg (use_node.rs convert): use_size = the use's own width / height where present, content pre-translated by the use's x / y *)
+Definition st_of (u : option vnode) : vstate :=
+  match u with
+  | None => st0
+  | Some u => {| st_view_box := st_view_box st0;
+                 st_use_size := (if vn_has_attr u A_Width then Some (vn_user_length u A_Width st0 pct100) else None,
+                                 if vn_has_attr u A_Height then Some (vn_user_length u A_Height st0 pct100) else None);
+                 st_dpi := 96; st_fs := 12 |}
+  end.
+Definition pre_of (u : option vnode) : ts :=
+  match u with None => ts_identity | Some u => from_translate (vn_user_length u A_X st0 len_zero) (vn_user_length u A_Y st0 len_zero) end.
+Definition rect_close (a b : qrect) : bool :=
+  Qclose (1 # 5000) (rx a) (rx b) && Qclose (1 # 5000) (ry a) (ry b) && Qclose (1 # 5000) (rw a) (rw b) && Qclose (1 # 5000) (rh a) (rh b).
+"""
+VP_COQ_CHK_MODEL = """Definition chk (p : vnode * vnode * option vnode * option qrect * ts) : bool :=
+  let '(n, l, u, oc, ots) := p in
+  let st := st_of u in
+  opt_eqb rect_close (get_clip_rect n l st) oc &&
+  ts_close (1 # 5000) (ts_concat (pre_of u) (viewport_ts n st (match viewbox_transform n l st with Some t => t | None => ts_identity end))) ots.
+"""
+# the SVG rule itself (Model/ViewportPrims.v spec_*; does not use the source-derived functions) on the implementation's tree
+VP_COQ_CHK_SPEC = """Definition chk (p : vnode * vnode * option vnode * option qrect * ts) : bool :=
+  let '(n, l, u, oc, ots) := p in
+  let st := st_of u in
+  opt_eqb rect_close (spec_clip_rect n l st) oc &&
+  ts_close (1 # 5000)
+    (ts_concat (pre_of u) (ts_concat (from_translate (spec_vp_x n st) (spec_vp_y n st))
+       (match vn_viewbox l with
+        | Some r => if Qltb 0 (spec_vp_w n st) && Qltb 0 (spec_vp_h n st)
+                    then to_transform {| vb_rect := r; vb_aspect := aspect_or_default l |} {| sw := spec_vp_w n st; sh := spec_vp_h n st |}
+                    else ts_identity
+        | None => ts_identity end))) ots.
+"""
+
+
+def vp_find(tree):
+    """(clip rectangle of the first clipped group or None, abs transform of the probe or None)"""
+    clip = []
+    probe = []
+
+    def visit(n):
+        if n.get('t') == 'g' and n.get('clip') and not clip:
+            ch = n['clip']['root'].get('children', [])
+            if ch and ch[0].get('bbox'):
+                clip.append(ch[0]['bbox'])
+        if n.get('t') == 'path' and n.get('fill') and n['fill']['paint'].get('rgb') == [1, 2, 3]:
+            probe.append(n['abs_ts'])
+    walk(tree['root'], visit)
+    return (clip[0] if clip else None), (probe[0] if probe else None)
+
+
+def viewport_clip_corr(ctx, binp, rng, quick):
+    per_kind = 40 if quick else 400
+    cases = [gen_vp_case(rng, k, i) for k in ('nested', 'symbol', 'use-svg') for i in range(per_kind)]
+    docs = [vp_doc(c) for c in cases]
+    outs = ctx.rvh_batch(binp, 'dump', ["-\t" + d for d in docs])
+    items, idx = [], []
+    nclip = 0
+    for i, (c, d, o) in enumerate(zip(cases, docs, outs)):
+        try:
+            tree = json.loads(o)
+        except (TypeError, ValueError):
+            tree = {'error': 'unparsable harness output'}
+        if 'root' not in tree:
+            ctx.violation("viewport document failed to parse or crashed: %s" % str(tree)[:200], dict(doc=d, result=tree))
+            continue
+        clip, pts = vp_find(tree)
+        if pts is None:
+            ctx.violation("probe element missing from the tree (nested viewport)", dict(doc=d, case=str(c)))
+            continue
+        nclip += clip is not None
+        ctx.note_case("vpclip/" + d, nontrivial=clip is not None)
+        items.append(vp_coq_case(c, clip, pts))
+        idx.append((i, clip, pts))
+    ctx.cov['viewport_clip_cases'] = len(items)
+    ctx.cov['viewport_clip_with_clip'] = nclip
+    if not items:
+        return
+    ctx.add_sample(dict(op='viewport-clip', doc=docs[idx[0][0]]))
+    cases_s = ("Definition cases : list (vnode * vnode * option vnode * option qrect * ts) := [\n%s\n].\n"
+               "Eval vm_compute in (bad_indices chk cases).\n" % ";\n".join(items))
+    # (1) the SVG viewport rule (hand-written spec vocabulary) against the implementation: gives the failing document
+    rc, out = ctx.coq_eval('s_viewport_clip', VP_COQ_PRELUDE + VP_COQ_CHK_SPEC + cases_s,
+                           ['Model.Base', 'Model.GeomPrims', 'Model.Corr', 'Gen.Units', 'Model.SvgSize', 'Gen.PctAxis',
+                            'Model.ViewportPrims', 'Gen.LeafViewBox'])
+    sbad = ctx.parse_N_list(out) if rc == 0 else None
+    if sbad is None:
+        ctx.log("viewport-clip spec evaluation failed:\n" + out[-1500:])
+    for b in (sbad or [])[:3]:
+        i, clip, pts = idx[b]
+        ctx.violation("nested viewport of <%s> does not follow the SVG viewport rule (clip rectangle = viewport x/y/width/height with "
+                      "percentages of the parent viewport, `use` overrides, overflow; viewBox fitted into that rectangle)" % cases[i]['kind'],
+                      dict(doc=docs[i], impl_clip_rect=clip, impl_probe_transform=pts, case=str(cases[i]),
+                           replay="rvh dump with this doc; first clipped group's clip path rectangle and the probe's abs transform"))
+    ctx.cov['viewport_spec_cases'] = len(items) if sbad is not None else 0
+    # (2) the source-derived functions against the implementation
+    rc, out = ctx.coq_eval('k_viewport_clip', VP_COQ_PRELUDE + VP_COQ_CHK_MODEL + cases_s,
+                           ['Model.Base', 'Model.GeomPrims', 'Model.Corr', 'Gen.Units', 'Model.SvgSize',
+                            'Gen.PctAxis', 'Model.ViewportPrims', 'Gen.LeafViewBox', 'Gen.LeafViewport'])
+    badl = ctx.parse_N_list(out) if rc == 0 else None
+    if badl is None:
+        ctx.log("viewport-clip model evaluation failed:\n" + out[-1500:])
+        if not ctx.cov.get('viewport_tie_broken') and not sbad:
+            ctx.violation("viewport-clip: the source-derived model (Gen/LeafViewport.v) could not be evaluated",
+                          dict(log_tail=out[-1500:]), found_input=False)
+        return
+    for b in badl[:3]:
+        i, clip, pts = idx[b]
+        ctx.violation("source-derived viewport model (use_node.rs get_clip_rect / viewbox_transform) and implementation disagree "
+                      "on the clip rectangle or content transform of <%s>" % cases[i]['kind'],
+                      dict(doc=docs[i], impl_clip_rect=clip, impl_probe_transform=pts, case=str(cases[i]),
+                           replay="rvh dump with this doc; first clipped group's clip path rectangle and the probe's abs transform"))
+
+
 def run(ctx):
     rng = ctx.rng
     quick = ctx.tier == 'quick'
@@ -457,6 +666,10 @@ def run(ctx):
                               % (cases[i]['kind'], par(cases[i])),
                               dict(doc=docs[i], impl_transform=find_probe(json.loads(outs[i]), cases[i]['kind']),
                                    model_expr=coq_expected(cases[i])))
+
+    # ------------------------------------------------------------------ K2: nested viewport clip + transform (round 4)
+    ctx.cov['viewport_tie_broken'] = bool([b for b in broken if b['name'] in ('use_node.viewport', 'units.pct_axis')])
+    viewport_clip_corr(ctx, binp, rng, quick)
 
     # ------------------------------------------------------------------ model-level search when a proof broke
     if not proof_ok:
